@@ -73,6 +73,11 @@ var recipes = []recipe{
 		return runPauseProposer(PauseParams{Seed: s, Interval: pickU(r, 1, 1, 3, 17280), How: pickS(r, "pause", "evidence", "none"), Compound: r.Chance(70)}, o)
 	}, 2},
 	{"recovery-rewards", func(r *hx.Rng, s uint64, o hx.Counter, a bool) []Case { return runRR(drawRR(r, s, a), o) }, 3},
+	{"upgrade-validator-states", func(r *hx.Rng, s uint64, o hx.Counter, a bool) []Case {
+		return runUpgradeStates(drawUpgradeStates(r, s), o)
+	}, 3},
+	{"settings-mid-history", func(r *hx.Rng, s uint64, o hx.Counter, a bool) []Case { return runSettings(drawSettings(r, s), o) }, 3},
+	{"export-import", func(r *hx.Rng, s uint64, o hx.Counter, a bool) []Case { return runExportImport(s, o) }, 1},
 	{"random", recipeRandom, 6},
 }
 
@@ -169,7 +174,7 @@ func recipeRandom(r *hx.Rng, seed uint64, ops hx.Counter, adversarial bool) []Ca
 	npool := 0
 	nprop := uint64(0)
 	for b := 0; b < nb && !h.Halted; b++ {
-		req := BlockReq{Dt: pickI(r, 1, 5, 5, 5, 30, 301, 400, 3700, 90000, 2700000, 32000000), Proposer: r.Intn(nv)}
+		req := BlockReq{Dt: pickI(r, 1, 5, 5, 5, 30, 299, 300, 301, 400, 3700, 90000, 2700000, 32000000), Nanos: pickI(r, 0, 0, 1, 999999999, -1), Proposer: r.Intn(nv)}
 		for v := 0; v < nv; v++ {
 			if r.Chance(15) {
 				req.Absent = append(req.Absent, v)
